@@ -135,6 +135,7 @@ type world struct {
 	snaps   []string
 	answers []string
 	failed  string
+	stale   []int // positions of TimerDelete actions of removals that had been cancelled
 	f27     bool // an instance finished while a message thread of the same tree was between lookup and delivery
 }
 
@@ -209,7 +210,7 @@ func (w *world) matchTree(i int) func([]interface{}) bool {
 	}
 }
 
-const wait = 10 * time.Second
+const wait = 4 * time.Second
 
 func (w *world) snapshot() string {
 	var ts, ps, is, cs, as []string
@@ -577,6 +578,10 @@ func (w *world) exec(s step) {
 		}
 		h := w.held[idx]
 		w.held = append(w.held[:idx], w.held[idx+1:]...)
+		if h.ch != w.chanOf[s.Tree] || !w.ovX.VerifRemovalPending(tr.ID) {
+			// this removal was cancelled (and possibly a newer one scheduled): its goroutine must change nothing
+			w.stale = append(w.stale, len(w.acts))
+		}
 		td := w.sched.Block("treestorage.timerDone", 1, w.matchTree(s.Tree))
 		h.gate.Release()
 		if !td.WaitHit(wait) {
@@ -686,7 +691,7 @@ func run(raw json.RawMessage) lib.Case {
 		}
 		return lib.Case{Discard: true, Class: in.Name, Obs: w.failed}
 	}
-	coq := fmt.Sprintf("mkCase %s %s %s %s", lib.List(w.acts), lib.List(w.snaps), lib.List(w.answers), lib.Bool(drained))
+	coq := fmt.Sprintf("mkCase %s %s %s %s %s", lib.List(w.acts), lib.List(w.snaps), lib.List(w.answers), lib.Bool(drained), lib.NatList(w.stale))
 	obs := map[string]interface{}{"actions": strings.Join(w.acts, "; "), "answers": strings.Join(w.answers, " "),
 		"last": w.snaps[len(w.snaps)-1]}
 	class := in.Name
